@@ -29,6 +29,7 @@ var keyB64 = []string{
 	"MTExMTExMTExMTExMTExMTExMTExMTExMTExMTExMTE=",
 	"MjIyMjIyMjIyMjIyMjIyMjIyMjIyMjIyMjIyMjIyMjI=",
 	"MzMzMzMzMzMzMzMzMzMzMzMzMzMzMzMzMzMzMzMzMzM=",
+	"NDQ0NDQ0NDQ0NDQ0NDQ0NDQ0NDQ0NDQ0NDQ0NDQ0NDQ=",
 }
 
 func keyJSON(j int) string {
@@ -36,7 +37,8 @@ func keyJSON(j int) string {
 }
 
 const nOps = 2
-const unbondingEpochs = 1
+// unbonding period in dogfood epochs (set in setup)
+var unbondingEpochs int64 = 1
 
 type world struct {
 	f       *verifenv.Full
@@ -49,32 +51,61 @@ type world struct {
 	dueAt   []int64 // ghost: epoch at whose end key j's reverse lookup may be pruned (-1: none)
 	wasVal  []bool  // ghost: key j is in the validator set handed to consensus
 	current []int   // ghost: operator o's current key (-1 none)
+
+	// block structure: the BeginBlock hook that closes an epoch and the EndBlock of that block
+	// are separate steps, so transactions can fall in between
+	pendingEnd bool
+	closing    int64 // the epoch whose end is being processed while pendingEnd
+
+	// ghost state for the unbonding queues (C16)
+	withUndelegations bool
+	removing          []bool  // operator o's key removal is in progress
+	optOutDue         []int64 // ... and completes in the EndBlock closing this epoch
+	prevKey           []int   // operator o's key at the last validator-set update, if replaced since (-1 none)
+	pruneQueued       []bool  // key j was replaced while a validator: its address is queued for pruning at dueAt[j]
+	recs              []*heldRec
+}
+
+// heldRec: an undelegation whose start was announced to the dogfood module.
+type heldRec struct {
+	key      []byte
+	held     bool
+	due      int64
+	released bool
 }
 
 func setup() *world {
 	f := verifenv.NewFull(100)
+	unbondingEpochs = 1
+	if verifrt.Param("unbonding_choice", 0) == 1 {
+		unbondingEpochs = int64(verifrt.Choice("unbonding_epochs", 2))
+	}
 	w := &world{f: f, chain: avstypes.ChainIDWithoutRevision(f.Ctx.ChainID()), epoch: 5}
 	w.putEpoch()
-	f.Dogfood.SetParams(f.Ctx, dogfoodtypes.Params{EpochsUntilUnbonded: unbondingEpochs, EpochIdentifier: verifenv.EpochDay, MaxValidators: 3, HistoricalEntries: 0, MinSelfDelegation: sdkmath.ZeroInt()})
+	f.Dogfood.SetParams(f.Ctx, dogfoodtypes.Params{EpochsUntilUnbonded: uint32(unbondingEpochs), EpochIdentifier: verifenv.EpochDay, MaxValidators: 3, HistoricalEntries: 0, MinSelfDelegation: sdkmath.ZeroInt()})
 	f.Env.RegisterAsset(verifenv.LSTAddrHex, 6, sdkmath.NewInt(1000))
 	f.Oracle.Prices[verifenv.LSTAssetID()] = oracletypes.Price{Value: sdkmath.NewInt(1), Decimal: 0}
 	addr, err := f.AVS.RegisterAVSWithChainID(f.Ctx, &avstypes.AVSRegisterOrDeregisterParams{
-		AvsName: "dogfood", AssetID: []string{verifenv.LSTAssetID()}, UnbondingPeriod: unbondingEpochs, MinSelfDelegation: 0,
+		AvsName: "dogfood", AssetID: []string{verifenv.LSTAssetID()}, UnbondingPeriod: uint64(unbondingEpochs), MinSelfDelegation: 0,
 		EpochIdentifier: verifenv.EpochDay, ChainID: f.Ctx.ChainID(), AvsOwnerAddress: []string{verifenv.Authority}})
 	verifrt.Assume(err == nil)
 	w.avs = avstypes.GenerateAVSAddr(w.chain)
 	_ = addr
-	for j := range keyB64 {
+	for j := 0; j < verifrt.Param("keys", 3); j++ {
 		k := keytypes.NewWrappedConsKeyFromJSON(keyJSON(j))
 		verifrt.Assume(k != nil)
 		w.keys = append(w.keys, k)
 		w.cons = append(w.cons, k.ToConsAddr())
 		w.dueAt = append(w.dueAt, -1)
 		w.wasVal = append(w.wasVal, false)
+		w.pruneQueued = append(w.pruneQueued, false)
 	}
 	for o := 0; o < nOps; o++ {
 		f.RegisterOperator(o)
 		w.current = append(w.current, -1)
+		w.removing = append(w.removing, false)
+		w.optOutDue = append(w.optOutDue, -1)
+		w.prevKey = append(w.prevKey, -1)
 	}
 	w.ms = operatorkeeper.NewMsgServerImpl(*f.Operator)
 	return w
@@ -113,22 +144,59 @@ func (w *world) keyIndex(k keytypes.WrappedConsKey) int {
 	return -1
 }
 
+// beginClosingBlock: BeginBlock of the block that closes the current dogfood epoch (the epochs
+// module calls the hook before it stores the incremented epoch number).
+func (w *world) beginClosingBlock() {
+	w.f.Dogfood.EpochsHooks().AfterEpochEnd(w.f.Ctx, verifenv.EpochDay, w.epoch)
+	w.pendingEnd = true
+	w.closing = w.epoch
+	w.epoch++
+	w.putEpoch()
+}
+
+// endBlock: EndBlock of that block: matured opt-outs, prunings and holds are applied and the
+// validator set is updated.
+func (w *world) endBlock() {
+	w.f.Dogfood.EndBlock(w.f.Ctx)
+	w.pendingEnd = false
+	for j := range w.keys {
+		w.wasVal[j] = w.inValSet(j)
+		if w.dueAt[j] == w.closing {
+			w.dueAt[j] = -1
+			w.pruneQueued[j] = false
+		}
+	}
+	for o := range w.removing {
+		w.prevKey[o] = -1
+		if w.removing[o] && w.optOutDue[o] == w.closing {
+			w.removing[o] = false
+			w.optOutDue[o] = -1
+			w.current[o] = -1
+		}
+	}
+	for _, r := range w.recs {
+		if r.held && !r.released && r.due == w.closing {
+			r.released = true
+		}
+	}
+}
+
 // step performs one operation chosen symbolically and updates the ghost state.
 func (w *world) step(t int) {
 	f := w.f
-	op := verifrt.Choice(nm("step%d_op", t), 4)
+	nKinds := 5
+	if w.withUndelegations {
+		nKinds = 6
+	}
+	op := verifrt.Choice(nm("step%d_op", t), nKinds)
 	if op == 3 {
-		// the dogfood epoch ends: BeginBlock hook, then EndBlock computes the validator updates
-		f.Dogfood.EpochsHooks().AfterEpochEnd(f.Ctx, verifenv.EpochDay, w.epoch)
-		f.Dogfood.EndBlock(f.Ctx)
-		for j := range w.keys {
-			w.wasVal[j] = w.inValSet(j)
-			if w.dueAt[j] == w.epoch {
-				w.dueAt[j] = -1
-			}
-		}
-		w.epoch++
-		w.putEpoch()
+		verifrt.Assume(!w.pendingEnd)
+		w.beginClosingBlock()
+		return
+	}
+	if op == 4 {
+		verifrt.Assume(w.pendingEnd)
+		w.endBlock()
 		return
 	}
 	o := verifrt.Choice(nm("step%d_operator", t), nOps)
@@ -152,8 +220,14 @@ func (w *world) step(t int) {
 			verifrt.Assert(!removing, "an operator that is removing its key cannot set a new one")
 			verifrt.Assert(verifrt.Any(heldBy == -1, w.current[o] == j), "a key that is reserved (current, replaced or being removed and not yet matured) is never handed out")
 			old := w.current[o]
-			if old >= 0 && old != j && w.wasVal[old] {
-				w.dueAt[old] = w.epoch + unbondingEpochs
+			if old >= 0 && old != j {
+				if w.wasVal[old] {
+					w.dueAt[old] = w.epoch + unbondingEpochs
+					w.pruneQueued[old] = true
+				}
+				if w.prevKey[o] < 0 {
+					w.prevKey[o] = old
+				}
 			}
 			w.current[o] = j
 			verifrt.Cover(nm("key set by op %d", op))
@@ -164,8 +238,41 @@ func (w *world) step(t int) {
 			old := w.current[o]
 			if old >= 0 && w.wasVal[old] {
 				w.dueAt[old] = w.epoch + unbondingEpochs
+				w.removing[o] = true
+				w.optOutDue[o] = w.epoch + unbondingEpochs
+			} else {
+				// nothing to wait for: the removal completes at once
+				w.current[o] = -1
 			}
 			verifrt.Cover("opted out")
+		}
+	case 5:
+		// an undelegation from operator o starts: the delegation module tells dogfood (inside the
+		// transaction: a failure or panic rolls the transaction back)
+		r := &heldRec{key: []byte{0xd0, byte(t), 1, 2, 3, 4, 5, 6}}
+		cctx, write := f.Ctx.CacheContext()
+		var err error
+		panicked := verifrt.Try(func() {
+			err = f.Dogfood.DelegationHooks().AfterUndelegationStarted(cctx, acc, r.key)
+		})
+		if panicked || err != nil {
+			verifrt.Cover("undelegation transaction rejected")
+			return
+		}
+		write()
+		// reference: held until the opt-out matures, or for the unbonding period if the
+		// operator's current or previous key is in the validator set, else not held at all
+		switch {
+		case w.removing[o]:
+			r.held, r.due = true, w.optOutDue[o]
+		case w.current[o] >= 0 && (w.wasVal[w.current[o]] || (w.prevKey[o] >= 0 && w.wasVal[w.prevKey[o]])):
+			r.held, r.due = true, w.epoch+unbondingEpochs
+		}
+		w.recs = append(w.recs, r)
+		if r.held {
+			verifrt.Cover("undelegation held")
+		} else {
+			verifrt.Cover("undelegation not held")
 		}
 	}
 }
@@ -216,6 +323,61 @@ func (w *world) check() {
 	}
 }
 
+// checkQueues asserts the unbonding-queue clauses (C16): every announced undelegation is held
+// exactly from its start to the EndBlock of the block closing its due epoch, and an opt-out
+// completes exactly then.
+func (w *world) checkQueues() {
+	f := w.f
+	for _, r := range w.recs {
+		want := uint64(0)
+		if r.held && !r.released {
+			want = 1
+		}
+		verifrt.Assert(f.Deleg.GetUndelegationHoldCount(f.Ctx, r.key) == want, "an undelegation is held exactly from its start until the block that closes its unbonding epoch ends: not released earlier, later or twice, and not held at all when the operator's keys are not in the validator set")
+	}
+	// whatever is waiting is on the list of its due epoch (or on the pending list while that
+	// epoch's closing block is being processed): nothing is left behind or lost from a queue
+	listed := func(list [][]byte, x []byte) bool {
+		n := 0
+		for _, e := range list {
+			if bytes.Equal(e, x) {
+				n++
+			}
+		}
+		return n == 1
+	}
+	for j := range w.keys {
+		if w.pruneQueued[j] && w.dueAt[j] >= 0 {
+			list := f.Dogfood.GetConsensusAddrsToPrune(f.Ctx, w.dueAt[j])
+			if w.pendingEnd && w.closing == w.dueAt[j] {
+				list = f.Dogfood.GetPendingConsensusAddrs(f.Ctx).List
+			}
+			verifrt.Assert(listed(list, w.cons[j]), "a replaced validator key is queued exactly once for pruning at its unbonding epoch")
+		}
+	}
+	for o := 0; o < nOps; o++ {
+		if w.removing[o] {
+			list := f.Dogfood.GetOptOutsToFinish(f.Ctx, w.optOutDue[o])
+			if w.pendingEnd && w.closing == w.optOutDue[o] {
+				list = f.Dogfood.GetPendingOptOuts(f.Ctx).List
+			}
+			verifrt.Assert(listed(list, verifenv.OperatorAddr(o)), "an opting-out validator is queued exactly once for completion at its unbonding epoch")
+		}
+	}
+	for _, r := range w.recs {
+		if r.held && !r.released {
+			list := f.Dogfood.GetUndelegationsToMature(f.Ctx, r.due)
+			if w.pendingEnd && w.closing == r.due {
+				list = f.Dogfood.GetPendingUndelegations(f.Ctx).List
+			}
+			verifrt.Assert(listed(list, r.key), "a held undelegation is queued exactly once for release at its unbonding epoch")
+		}
+	}
+	for o := 0; o < nOps; o++ {
+		verifrt.Assert(f.Operator.IsOperatorRemovingKeyFromChainID(f.Ctx, verifenv.OperatorAddr(o), w.chain) == w.removing[o], "an opt-out of a validator completes exactly in the block that closes its unbonding epoch, an opt-out of a non-validator at once")
+	}
+}
+
 // VerifC07KeyRegistry: a bounded sequence of opt-in-with-key, key replacement, opt-out and epoch
 // end operations by two operators over three keys, through the real message server, operator
 // keeper, dogfood hooks and dogfood EndBlock; the registry invariant is asserted after every step.
@@ -231,21 +393,18 @@ func VerifC07KeyRegistry() {
 		w.current[o] = o
 	}
 	if init > 0 {
-		w.f.Dogfood.EpochsHooks().AfterEpochEnd(w.f.Ctx, verifenv.EpochDay, w.epoch)
-		w.f.Dogfood.EndBlock(w.f.Ctx)
-		for j := range w.keys {
-			w.wasVal[j] = w.inValSet(j)
-		}
-		w.epoch++
-		w.putEpoch()
+		w.beginClosingBlock()
+		w.endBlock()
 		for o := 0; o < init; o++ {
 			verifrt.Assume(w.wasVal[o])
 		}
 		w.check()
 	}
+	w.withUndelegations = verifrt.Param("undelegations", 0) == 1
 	steps := verifrt.Param("steps", 3)
 	for t := 0; t < steps; t++ {
 		w.step(t)
 		w.check()
+		w.checkQueues()
 	}
 }
